@@ -103,14 +103,14 @@ func (e Event) String() string {
 
 // Session owns the history and fault schedule shared by all wrappers.
 type Session struct {
-	Log     *kit.Log
-	Events  []Event
-	Faults  []Fault
-	Fired   []Event // events at which a fault fired
-	nextID  int
-	Nodes   []*W
-	Phase   int
-	Record  bool // keep Events (always true in practice)
+	Log    *kit.Log
+	Events []Event
+	Faults []Fault
+	Fired  []Event // events at which a fault fired
+	nextID int
+	Nodes  []*W
+	Phase  int
+	Record bool // keep Events (always true in practice)
 	// OnOpStart is called by the session just before the API call under test
 	// (after navigation to the entry point).
 	OnOpStart func()
